@@ -161,7 +161,9 @@ func runC29(c *core.Ctx) {
 		}
 		// the list is a value copy: after removing an element it is written back (or the nonce entry is dropped)
 		for i, prim := range core.CallsIn(fn, func(in ssa.Instruction, _ *ssa.CallCommon) bool { return isCall("removeHeader")(in) }) {
-			q := core.PathQ{Fn: fn, From: prim, Via: func(in ssa.Instruction) bool { return isCall("setListOfHeaders")(in) || isCall("removeListOfHeaders")(in) }, Target: core.AnyReturn}
+			q := core.PathQ{Fn: fn, From: prim, Via: func(in ssa.Instruction) bool {
+				return isCall("setListOfHeaders")(in) || isCall("removeListOfHeaders")(in)
+			}, Target: core.AnyReturn}
 			esc, pth := q.Escape()
 			c.Check(esc == nil, "C29/indexes-co-updated", fmt.Sprintf("headersCache.removeHeaderFromNonceMap#%d/write-back", i), prim.Pos(), "the shortened list is stored back in the nonce map (or the entry is removed)",
 				"the list from which a header was removed is a copy and is not written back to the nonce index: the index keeps the removed header ("+c.P.PathString(pth)+")")
